@@ -8,7 +8,7 @@
    NO PROOFS HERE.
 
    Bytes are N (< 256), byte strings are lists; a 32-byte scalar is little-endian.
-   The Ed25519 group, HMAC-SHA512, SHA-512, scrypt, AES-CTR and SHA-256 are Section
+   The Ed25519 group, HMAC-SHA512, SHA-512, scrypt, AES-CTR and the MAC hash (crypto.Sha256 = SHA3-256) are Section
    variables: [smul n] is n*B (ScMulBase / GeScalarMultBase), [gmul k P] is k*P,
    [encode]/[decode] are Point.Encode / Point.Decode.  The correspondence run
    instantiates them with finite tables computed by the harness (C28/Run.v).
@@ -221,13 +221,13 @@ Definition xorb (a s : bytes) : bytes := map (fun p => N.lxor (fst p) (snd p)) (
 Section KS.
   Variable kdf : bytes -> bytes -> bytes.          (* scrypt.Key(auth, salt, N, 8, P, 32) *)
   Variable ctr : bytes -> bytes -> nat -> bytes.   (* AES-128-CTR key stream: key, iv, length *)
-  Variable sha256 : bytes -> bytes.
+  Variable mac_hash : bytes -> bytes.             (* crypto.Sha256, which is SHA3-256 *)
 
   (* aesCTRXOR *)
   Definition ctr_xor (key text iv : bytes) : bytes := xorb text (ctr key iv (length text)).
 
   (* crypto.Sha256(derivedKey[16:32], cipherText) *)
-  Definition mac_of (dk ct : bytes) : bytes := sha256 (firstn 16 (skipn 16 dk) ++ ct).
+  Definition mac_of (dk ct : bytes) : bytes := mac_hash (firstn 16 (skipn 16 dk) ++ ct).
 
   (* EncryptKey; salt and iv are the two reads of the system random source *)
   Definition encrypt_key (k : xprv) (alias pw salt iv : bytes) : keyfile :=
@@ -269,11 +269,11 @@ Section XSIGN.
   Variable sha512 : bytes -> bytes.
   Variable kdf : bytes -> bytes -> bytes.
   Variable ctr : bytes -> bytes -> nat -> bytes.
-  Variable sha256 : bytes -> bytes.
+  Variable mac_hash : bytes -> bytes.
 
   Definition xsign (f : keyfile) (alias : bytes) (path : list bytes) (msg pw : bytes)
     : outcome kerr bytes :=
-    match load_key kdf ctr sha256 f alias pw with
+    match load_key kdf ctr mac_hash f alias pw with
     | Ok k =>
         match derive_prv G smul encode hmac512 k path with
         | Ok k' => Ok (sign G smul encode hmac512 sha512 k' msg)
